@@ -431,13 +431,13 @@ Proof.
 Qed.
 
 Lemma managed_meta l : managed (meta_anc l) = managed l.
-Proof. unfold managed, ms. rewrite meta_anc_idem. reflexivity. Qed.
+Proof. unfold managed, managed_l. rewrite meta_anc_idem. reflexivity. Qed.
 
 Lemma managed_cons k t :
   is_spec k = true ->
   managed (k :: t) = managed t ++ filter (fun a => negb (memb a (managed t))) (nodup_first (decl_names k)).
 Proof.
-  intro H. unfold managed, ms. rewrite meta_anc_spec_head by exact H.
+  intro H. unfold managed, managed_l. rewrite meta_anc_spec_head by exact H.
   simpl rev. rewrite flat_map_app. simpl flat_map at 2. rewrite app_nil_r.
   rewrite nodup_first_app. rewrite <- flat_decl_rev_meta.
   f_equal. apply filter_ext. intro a. f_equal.
@@ -448,36 +448,35 @@ Proof.
 Qed.
 
 Lemma managed_plain k t : is_spec k = false -> managed (k :: t) = managed t.
-Proof. intro H. unfold managed, ms. rewrite meta_anc_plain_head by exact H. reflexivity. Qed.
+Proof. intro H. unfold managed, managed_l. rewrite meta_anc_plain_head by exact H. reflexivity. Qed.
 
-Lemma declares_plain k a : is_spec k = false -> declares k a = false.
-Proof. intro H. unfold declares. rewrite H. reflexivity. Qed.
+Lemma declares_at_plain k t a : is_spec k = false -> declares_at k t a = false.
+Proof. intro H. unfold declares_at. rewrite H. reflexivity. Qed.
 
-Lemma mentions_plain k a : is_spec k = false -> mentions k a = false.
-Proof. intro H. unfold mentions. rewrite H. reflexivity. Qed.
+Lemma mentions_at_plain k t a : is_spec k = false -> mentions_at k t a = false.
+Proof. intro H. unfold mentions_at. rewrite H. reflexivity. Qed.
 
-Lemma find_declares_meta a l :
-  find (fun k => declares k a) (meta_anc l) = find (fun k => declares k a) l.
+Lemma owner_in_meta a l : owner_in (meta_anc l) a = owner_in l a.
 Proof.
   induction l as [|k t IH]; [reflexivity|]. simpl meta_anc. destruct (is_spec k) eqn:E; [reflexivity|].
-  simpl. rewrite declares_plain by exact E. exact IH.
+  simpl. rewrite declares_at_plain by exact E. exact IH.
 Qed.
 
 Lemma owner_cls_cons k t a :
-  owner_cls (k :: t) a = if declares k a then Some k else owner_cls t a.
+  owner_cls (k :: t) a = if declares_at k t a then Some k else owner_cls t a.
 Proof.
-  unfold owner_cls, ms. rewrite !find_declares_meta. reflexivity.
+  unfold owner_cls, ms. rewrite !owner_in_meta. reflexivity.
 Qed.
 
 Lemma owner_cons k t a :
-  owner (k :: t) a = if declares k a then Some (k_id k) else owner t a.
-Proof. unfold owner. rewrite owner_cls_cons. destruct (declares k a); reflexivity. Qed.
+  owner (k :: t) a = if declares_at k t a then Some (k_id k) else owner t a.
+Proof. unfold owner. rewrite owner_cls_cons. destruct (declares_at k t a); reflexivity. Qed.
 
 Lemma init_of_cons k t a :
-  init_of (k :: t) a = if declares k a
+  init_of (k :: t) a = if declares_at k t a
                        then match assoc a (k_dict k) with Some (EAttr _ i _) => i | _ => true end
                        else init_of t a.
-Proof. unfold init_of. rewrite owner_cls_cons. destruct (declares k a); reflexivity. Qed.
+Proof. unfold init_of. rewrite owner_cls_cons. destruct (declares_at k t a); reflexivity. Qed.
 
 Definition plain_ok (k : cdesc) : Prop := k_deco k = None -> k_annots k = [].
 
@@ -525,29 +524,27 @@ Proof.
   destruct t as [|p t']; [exact I|]. rewrite B. left. reflexivity.
 Qed.
 
-Lemma up_from_meta f l : (forall k, is_spec k = false -> f k = false) ->
-  up_from f (meta_anc l) = up_from f l.
+Lemma built_from_meta a l : built_from a (meta_anc l) = built_from a l.
 Proof.
-  intro F. induction l as [|k t IH]; [reflexivity|]. simpl meta_anc.
-  destruct (is_spec k) eqn:E; [reflexivity|]. simpl. rewrite F by exact E. exact IH.
+  induction l as [|k t IH]; [reflexivity|]. simpl meta_anc.
+  destruct (is_spec k) eqn:E; [reflexivity|]. simpl. rewrite mentions_at_plain by exact E. exact IH.
 Qed.
 
-Lemma up_from_cons_chain f k t : chain (k :: t) ->
-  up_from f (k :: t) = if f k then k :: t else up_from f t.
+Lemma built_from_cons_chain a k t : chain (k :: t) ->
+  built_from a (k :: t) = if mentions_at k t a then k :: t else built_from a t.
 Proof.
-  intro C. simpl up_from. destruct (f k); [|reflexivity].
+  intro C. cbn [built_from]. destruct (mentions_at k t a); [|reflexivity].
   apply (restrict_chain (k :: t) [k_id k] C). left. reflexivity.
 Qed.
 
 Lemma prep_of_cons k t a : chain (k :: t) ->
   prep_of (k :: t) a
-  = if mentions k a
+  = if mentions_at k t a
     then first_some (fun c => assoc a (k_preps c)) (k :: t)
     else prep_of t a.
 Proof.
-  intro C. unfold prep_of, ms.
-  rewrite !(up_from_meta (fun c => mentions c a)) by (intros c Hc; apply mentions_plain; exact Hc).
-  rewrite up_from_cons_chain by exact C. destruct (mentions k a); reflexivity.
+  intro C. unfold prep_of, ms. rewrite !built_from_meta.
+  rewrite built_from_cons_chain by exact C. destruct (mentions_at k t a); reflexivity.
 Qed.
 
 (* the line of spec classes settings are inherited through: on a chain, all spec classes *)
@@ -810,7 +807,10 @@ Definition wf_cls (k : cdesc) (t : list cdesc) : Prop :=
   plain_ok k /\
   forall d, k_deco k = Some d ->
     (forall o, d_ovf d = Some (Some o) -> ~ In o (map fst (k_annots k))) /\
-    (forall x, d_key d = Some (Some x) -> In x (map fst (k_annots k)) \/ ~ In x (managed t)).
+    (* a key re-stated for an inherited attribute the class does not annotate: the class body
+       says nothing else about it (bootstrap skips the attribute altogether) *)
+    (forall x, d_key d = Some (Some x) ->
+               In x (map fst (k_annots k)) \/ ~ In x (managed t) \/ assoc x (k_dict k) = None).
 
 Fixpoint wfc (l : list cdesc) : Prop :=
   match l with [] => True | k :: t => wf_cls k t /\ wfc t end.
@@ -876,7 +876,7 @@ Definition attr_ok (l : list cdesc) (r : rattr) : Prop :=
   /\ r_prep r = prep_of l (r_name r)
   /\ lookup_default_in r (rch l) = nearest_default (Some (r_owner r)) (r_name r) l
   /\ default_value r
-     = nearest_default (Some (r_owner r)) (r_name r) (up_from (fun c => mentions c (r_name r)) l)
+     = nearest_default (Some (r_owner r)) (r_name r) (built_from (r_name r) l)
   /\ In (r_owner r) (map k_id (filter is_spec l)).
 
 Definition InvO (l : list cdesc) : Prop :=
@@ -942,14 +942,14 @@ Proof.
   unfold attr_ok. repeat split.
   - rewrite ty_of_cons by (apply wfc_plains; exact W).
     rewrite ty_step_plain; [exact T | destruct W as [[Pk _] _]; exact Pk | exact S].
-  - rewrite init_of_cons, declares_plain by exact S. exact N.
-  - rewrite owner_cons, declares_plain by exact S. exact O.
-  - rewrite prep_of_cons by exact C. rewrite mentions_plain by exact S. exact P.
+  - rewrite init_of_cons, declares_at_plain by exact S. exact N.
+  - rewrite owner_cons, declares_at_plain by exact S. exact O.
+  - rewrite prep_of_cons by exact C. rewrite mentions_at_plain by exact S. exact P.
   - simpl rch. rewrite lookup_default_in_cons.
     destruct (k_id k =? r_owner r) eqn:E2; [apply Nat.eqb_eq in E2; congruence|].
     rewrite nearest_default_cons_other by exact NE. rewrite body_default_raw by exact NE.
     destruct (option_map raw_centry (assoc (r_name r) (k_dict k))); simpl; [reflexivity | exact I1].
-  - rewrite up_from_cons_chain by exact C. rewrite mentions_plain by exact S. exact I2.
+  - rewrite built_from_cons_chain by exact C. rewrite mentions_at_plain by exact S. exact I2.
   - simpl. rewrite S. exact E.
 Qed.
 
@@ -997,17 +997,18 @@ Proof.
   destruct (assoc a (k_dict k)) as [[v|dd ii ff]|]; destruct i as [r0|]; simpl; repeat split; reflexivity.
 Qed.
 
-Lemma declares_mentions k a : declares k a = true -> mentions k a = true.
+Lemma declares_mentions k t a : declares_at k t a = true -> mentions_at k t a = true.
 Proof.
-  unfold declares, mentions. destruct (is_spec k); [|discriminate]. simpl.
-  destruct (memb a (decl_names k)); [reflexivity|]. simpl.
+  unfold declares_at, mentions_at. destruct (is_spec k); [|discriminate]. simpl.
+  destruct (memb a (hard_names k)); [reflexivity|]. simpl.
+  destruct (adds_key k t a); [intros _; apply orb_true_r|]. rewrite !orb_false_r.
   unfold is_attr_entry, has. destruct (assoc a (k_dict k)) as [[v|dd i f]|]; try discriminate. reflexivity.
 Qed.
 
 (* an attribute the head class owns *)
 Lemma attr_ok_owned k t r :
   chain (k :: t) -> wfc (k :: t) -> is_spec k = true ->
-  declares k (r_name r) = true ->
+  declares_at k t (r_name r) = true ->
   r_owner r = k_id k ->
   r_dflt r = entry_dflt k t (r_name r) ->
   r_init r = match assoc (r_name r) (k_dict k) with Some (EAttr _ i _) => i | _ => true end ->
@@ -1019,10 +1020,10 @@ Proof.
   - exact TY.
   - rewrite init_of_cons, D. exact IN.
   - rewrite owner_cons, D, O. reflexivity.
-  - rewrite prep_of_cons by exact C. rewrite (declares_mentions _ _ D), PR. apply find_prep_rch.
+  - rewrite prep_of_cons by exact C. rewrite (declares_mentions _ _ _ D), PR. apply find_prep_rch.
   - simpl rch. rewrite lookup_default_in_cons. rewrite O, Nat.eqb_refl.
     rewrite default_value_eq, DF. apply own_default. exact C.
-  - rewrite up_from_cons_chain by exact C. rewrite (declares_mentions _ _ D).
+  - rewrite built_from_cons_chain by exact C. rewrite (declares_mentions _ _ _ D).
     rewrite O, default_value_eq, DF. apply own_default. exact C.
   - simpl. rewrite S. left. symmetry. exact O.
 Qed.
@@ -1071,29 +1072,37 @@ Proof.
   rewrite (first_some_none (ty_step x) t) by (intros c Hc; apply (F c Hc)). reflexivity.
 Qed.
 
-Lemma declares_false k a :
-  ~ In a (decl_names k) -> is_attr_entry (assoc a (k_dict k)) = false -> declares k a = false.
+Lemma hard_names_deco k d : k_deco k = Some d -> hard_names k = managed_of k d.
+Proof. intro D. unfold hard_names, managed_of, ovf_new_of, stated_ovf. rewrite D. reflexivity. Qed.
+
+(* an inherited attribute the head class neither annotates nor names as overflow attribute *)
+Lemma inherited_flags k d t a :
+  k_deco k = Some d -> ~ In a (managed_of k d) -> In a (managed t) ->
+  declares_at k t a = is_attr_entry (assoc a (k_dict k))
+  /\ mentions_at k t a = has a (k_dict k).
 Proof.
-  intros N E. unfold declares. apply memb_false in N. rewrite N, E. simpl. apply andb_false_r.
+  intros D N H. unfold declares_at, mentions_at, adds_key. rewrite (is_spec_deco k d D), (hard_names_deco k d D).
+  apply memb_false in N. rewrite N. apply (proj2 (memb_In _ _)) in H. unfold managed in H. rewrite H.
+  simpl. rewrite andb_false_r, !orb_false_r. split; reflexivity.
 Qed.
 
 (* an inherited attribute whose default the head class overrides with a literal *)
 Lemma attr_ok_redefault k d t r0 v dn :
   chain (k :: t) -> wfc (k :: t) -> k_deco k = Some d -> attr_ok t r0 ->
-  ~ In (r_name r0) (decl_names k) -> ~ In (r_name r0) (managed_of k d) ->
+  In (r_name r0) (managed t) -> ~ In (r_name r0) (managed_of k d) ->
   assoc (r_name r0) (k_dict k) = Some (ELit v) ->
   attr_ok (k :: t) (build_attr_spec cur k (rch t) (r_name r0) (r_ty r0) dn (Some r0)).
 Proof.
   intros C W D [T [N [O [P [I1 [I2 E]]]]]] ND NM A.
+  destruct (inherited_flags k d t (r_name r0) D NM ND) as [DC0 MN0]. rewrite A in DC0. unfold has in MN0. rewrite A in MN0.
   pose proof (is_spec_deco k d D) as S.
   pose proof (build_fields k (rch t) (r_name r0) (r_ty r0) dn (Some r0)) as F.
   cbv zeta in F. rewrite A in F. destruct F as [F1 [F2 [_ [F4 [F5 [F6 F7]]]]]].
   set (r := build_attr_spec cur k (rch t) (r_name r0) (r_ty r0) dn (Some r0)) in *.
   assert (NE : r_owner r0 <> k_id k).
   { intro H. destruct C as [C _]. apply C. rewrite <- H. apply owner_in_ids. exact E. }
-  assert (DC : declares k (r_name r0) = false) by (apply declares_false; [exact ND | rewrite A; reflexivity]).
-  assert (MN : mentions k (r_name r0) = true).
-  { unfold mentions, has. rewrite S, A. simpl. apply orb_true_r. }
+  assert (DC : declares_at k t (r_name r0) = false) by exact DC0.
+  assert (MN : mentions_at k t (r_name r0) = true) by exact MN0.
   unfold attr_ok. rewrite F1, F2, F6, F7, F4. repeat split.
   - rewrite ty_of_cons by (apply wfc_plains; exact W). rewrite (ty_step_untouched k d _ D NM). exact T.
   - rewrite init_of_cons, DC. exact N.
@@ -1102,7 +1111,7 @@ Proof.
   - simpl rch. rewrite lookup_default_in_cons. rewrite F1, F7, A.
     destruct (k_id k =? r_owner r0) eqn:E2; [apply Nat.eqb_eq in E2; congruence|].
     rewrite nearest_default_cons_other by exact NE. unfold body_default. rewrite A. reflexivity.
-  - rewrite up_from_cons_chain by exact C. rewrite MN.
+  - rewrite built_from_cons_chain by exact C. rewrite MN.
     rewrite nearest_default_cons_other by exact NE. unfold body_default. rewrite A.
     rewrite default_value_eq, F5. reflexivity.
   - simpl. rewrite S. right. exact E.
@@ -1111,19 +1120,19 @@ Qed.
 (* an inherited attribute the head class does not mention *)
 Lemma attr_ok_untouched k d t r0 r :
   chain (k :: t) -> wfc (k :: t) -> k_deco k = Some d -> attr_ok t r0 ->
-  ~ In (r_name r0) (decl_names k) -> ~ In (r_name r0) (managed_of k d) ->
+  In (r_name r0) (managed t) -> ~ In (r_name r0) (managed_of k d) ->
   assoc (r_name r0) (k_dict k) = None ->
   r_name r = r_name r0 -> r_ty r = r_ty r0 -> r_init r = r_init r0 -> r_owner r = r_owner r0 ->
   r_dflt r = r_dflt r0 -> r_prep r = r_prep r0 ->
   attr_ok (k :: t) r.
 Proof.
   intros C W D [T [N [O [P [I1 [I2 E]]]]]] ND NM A F1 F2 F3 F4 F5 F6.
+  destruct (inherited_flags k d t (r_name r0) D NM ND) as [DC0 MN0]. rewrite A in DC0. unfold has in MN0. rewrite A in MN0.
   pose proof (is_spec_deco k d D) as S.
   assert (NE : r_owner r0 <> k_id k).
   { intro H. destruct C as [C _]. apply C. rewrite <- H. apply owner_in_ids. exact E. }
-  assert (DC : declares k (r_name r0) = false) by (apply declares_false; [exact ND | rewrite A; reflexivity]).
-  assert (MN : mentions k (r_name r0) = false).
-  { unfold mentions, has. rewrite A. apply memb_false in ND. rewrite ND. simpl. apply andb_false_r. }
+  assert (DC : declares_at k t (r_name r0) = false) by exact DC0.
+  assert (MN : mentions_at k t (r_name r0) = false) by exact MN0.
   unfold attr_ok. rewrite F1, F2, F3, F4, F6. repeat split.
   - rewrite ty_of_cons by (apply wfc_plains; exact W). rewrite (ty_step_untouched k d _ D NM). exact T.
   - rewrite init_of_cons, DC. exact N.
@@ -1133,13 +1142,20 @@ Proof.
     destruct (k_id k =? r_owner r0) eqn:E2; [apply Nat.eqb_eq in E2; congruence|].
     rewrite nearest_default_cons_other by exact NE. unfold body_default. rewrite A. simpl.
     rewrite (lookup_default_in_ext r r0) by assumption. exact I1.
-  - rewrite up_from_cons_chain by exact C. rewrite MN.
+  - rewrite built_from_cons_chain by exact C. rewrite MN.
     rewrite default_value_eq, F5, <- default_value_eq. exact I2.
   - simpl. rewrite S. right. exact E.
 Qed.
 
-Lemma declares_decl k a : is_spec k = true -> In a (decl_names k) -> declares k a = true.
-Proof. intros S H. unfold declares. rewrite S. apply memb_In in H. rewrite H. reflexivity. Qed.
+Lemma declares_hard k t a : is_spec k = true -> In a (hard_names k) -> declares_at k t a = true.
+Proof. intros S H. unfold declares_at. rewrite S. apply (proj2 (memb_In _ _)) in H. rewrite H. reflexivity. Qed.
+
+Lemma declares_new_key k t a :
+  is_spec k = true -> stated_key k = Some (Some a) -> ~ In a (managed t) -> declares_at k t a = true.
+Proof.
+  intros S K N. unfold declares_at, adds_key, states_key. rewrite S, K, Nat.eqb_refl.
+  apply memb_false in N. unfold managed in N. rewrite N. simpl. apply orb_true_r.
+Qed.
 
 Lemma attr_ok_boot k d t r :
   chain (k :: t) -> wfc (k :: t) -> k_deco k = Some d -> InvO t ->
@@ -1148,7 +1164,7 @@ Proof.
   intros C W D [IK [IO [INm IA]]] H.
   pose proof (is_spec_deco k d D) as S.
   assert (NDI : NoDup (map r_name (inh (rch t)))).
-  { rewrite inh_mattrs, INm. unfold managed. apply NoDup_nodup_first. }
+  { rewrite inh_mattrs, INm. unfold managed, managed_l. apply NoDup_nodup_first. }
   destruct (attrs3_cases k d (rch t) r NDI H) as [[HM HE]|[[HM [HK [HN HE]]]|[HM [r0 [H0 HE]]]]].
   - (* new or re-declared by the head *)
     pose proof (build_fields k (rch t) (r_name r)
@@ -1157,7 +1173,7 @@ Proof.
     cbv zeta in F. fold (newB k d (rch t) (r_name r)) in F. rewrite <- HE in F.
     destruct F as [_ [F2 [_ [F4 [F5 F6]]]]].
     apply attr_ok_owned; try assumption.
-    + apply declares_decl; [exact S|]. rewrite (decl_names_deco k d D). apply in_app_iff. left. exact HM.
+    + apply declares_hard; [exact S|]. rewrite (hard_names_deco k d D). exact HM.
     + destruct (assoc (r_name r) (k_dict k)) as [[v|dd ii ff]|]; apply F6.
     + destruct (assoc (r_name r) (k_dict k)) as [[v|dd ii ff]|]; apply F6.
     + rewrite F2. apply (ty_managed k d t); assumption.
@@ -1166,8 +1182,8 @@ Proof.
     cbv zeta in F. fold (keyB k (rch t) (r_name r)) in F. rewrite <- HE in F.
     destruct F as [_ [F2 [_ [F4 [F5 F6]]]]].
     apply attr_ok_owned; try assumption.
-    + apply declares_decl; [exact S|]. rewrite (decl_names_deco k d D). apply in_app_iff. right.
-      unfold key_new_of. rewrite HK. left. reflexivity.
+    + apply declares_new_key; [exact S | unfold stated_key; rewrite D; exact HK|].
+      rewrite <- INm, <- inh_mattrs. exact HN.
     + destruct (assoc (r_name r) (k_dict k)) as [[v|dd ii ff]|]; apply F6.
     + destruct (assoc (r_name r) (k_dict k)) as [[v|dd ii ff]|]; apply F6.
     + rewrite F2. apply (ty_new_key k d t); try assumption.
@@ -1176,33 +1192,39 @@ Proof.
     assert (OK0 : attr_ok t r0) by (apply IA; rewrite <- inh_mattrs; exact H0).
     assert (HN : r_name r = r_name r0) by (rewrite HE; apply step1_name).
     rewrite HN in HM.
-    assert (NK : ~ In (r_name r0) (key_new_of d)).
-    { unfold key_new_of. destruct (d_key d) as [[x|]|] eqn:DK; [| intros [] | intros []].
-      intros [Hx|[]]. subst x.
-      destruct W as [[_ Wk] _]. destruct (Wk d D) as [_ WK].
-      destruct (WK _ DK) as [Ha|Ha].
-      - apply HM. unfold managed_of. apply in_app_iff. left. exact Ha.
-      - apply Ha. rewrite <- INm, <- inh_mattrs. apply in_map. exact H0. }
-    assert (ND : ~ In (r_name r0) (decl_names k)).
-    { rewrite (decl_names_deco k d D). rewrite in_app_iff. tauto. }
-    assert (MT : memb (r_name r0) (key_new_of d ++ managed_of k d) = false).
-    { apply memb_false. rewrite in_app_iff. tauto. }
-    unfold step1 in HE. rewrite MT in HE. unfold has in HE.
-    destruct (assoc (r_name r0) (k_dict k)) as [[v|dd ii ff]|] eqn:A.
-    + rewrite HE. apply (attr_ok_redefault k d t r0 v); assumption.
-    + (* an Attr object without annotation: the head becomes the owner *)
-      pose proof (build_fields k (rch t) (r_name r0) (r_ty r0) (dnc_for d (r_name r0)) (Some r0)) as F.
-      cbv zeta in F. rewrite <- HE in F. rewrite A in F. destruct F as [F1 [F2 [_ [F4 [F5 [F6 F7]]]]]].
-      apply attr_ok_owned; try assumption.
-      * rewrite F1. unfold declares. rewrite S, A. simpl. apply orb_true_r.
-      * rewrite F1. unfold entry_dflt. rewrite A. exact F5.
-      * rewrite F1, A. exact F6.
-      * rewrite F1. exact F4.
-      * rewrite F1, F2. rewrite ty_of_cons by (apply wfc_plains; exact W).
-        rewrite (ty_step_untouched k d _ D HM). apply OK0.
-    + destruct (negb (Bool.eqb (dnc_for d (r_name r0)) (r_dnc r0))).
-      * apply (attr_ok_untouched k d t r0 r); try assumption; rewrite HE; reflexivity.
-      * apply (attr_ok_untouched k d t r0 r); try assumption; rewrite HE; reflexivity.
+    assert (HI : In (r_name r0) (managed t)) by (rewrite <- INm, <- inh_mattrs; apply in_map; exact H0).
+    assert (UNT : assoc (r_name r0) (k_dict k) = None -> r = r0 \/
+                  r = mkrattr (r_name r0) (r_ty r0) (r_dflt r0) (r_init r0) (r_owner r0)
+                              (dnc_for d (r_name r0)) (r_prep r0) ->
+                  attr_ok (k :: t) r).
+    { intros A [E|E]; apply (attr_ok_untouched k d t r0 r); try assumption; rewrite E; reflexivity. }
+    unfold step1 in HE.
+    destruct (memb (r_name r0) (key_new_of d ++ managed_of k d)) eqn:MT.
+    + (* the decorator re-states the inherited key: bootstrap leaves the attribute alone *)
+      assert (HK : d_key d = Some (Some (r_name r0))).
+      { rewrite memb_app in MT. apply (proj2 (memb_false _ _)) in HM. rewrite HM, orb_false_r in MT.
+        unfold key_new_of in MT. destruct (d_key d) as [[x|]|]; try discriminate.
+        simpl in MT. rewrite orb_false_r in MT. apply Nat.eqb_eq in MT. subst x. reflexivity. }
+      destruct W as [[_ Wk] W']. destruct (Wk d D) as [_ WK].
+      destruct (WK _ HK) as [Ha|[Ha|Ha]].
+      * exfalso. apply HM. unfold managed_of. apply in_app_iff. left. exact Ha.
+      * contradiction.
+      * apply UNT; [exact Ha | left; exact HE].
+    + unfold has in HE.
+      destruct (assoc (r_name r0) (k_dict k)) as [[v|dd ii ff]|] eqn:A.
+      * rewrite HE. apply (attr_ok_redefault k d t r0 v); assumption.
+      * (* an Attr object without annotation: the head becomes the owner *)
+        pose proof (build_fields k (rch t) (r_name r0) (r_ty r0) (dnc_for d (r_name r0)) (Some r0)) as F.
+        cbv zeta in F. rewrite <- HE in F. rewrite A in F. destruct F as [F1 [F2 [_ [F4 [F5 [F6 F7]]]]]].
+        apply attr_ok_owned; try assumption.
+        -- rewrite F1. destruct (inherited_flags k d t (r_name r0) D HM HI) as [DC _]. rewrite DC, A. reflexivity.
+        -- rewrite F1. unfold entry_dflt. rewrite A. exact F5.
+        -- rewrite F1, A. exact F6.
+        -- rewrite F1. exact F4.
+        -- rewrite F1, F2. rewrite ty_of_cons by (apply wfc_plains; exact W).
+           rewrite (ty_step_untouched k d _ D HM). apply OK0.
+      * destruct (negb (Bool.eqb (dnc_for d (r_name r0)) (r_dnc r0)));
+          (apply UNT; [reflexivity | (left; exact HE) || (right; exact HE)]).
 Qed.
 
 Lemma names_boot k d t :
@@ -1281,7 +1303,7 @@ Proof.
   assert (ND : NoDup (map r_name (inh (rchain t)))).
   { rewrite E, inh_mattrs.
     destruct (InvO_chain t (chain_tail _ _ C) (proj2 W)) as [_ [_ [N _]]].
-    rewrite N. unfold managed. apply NoDup_nodup_first. }
+    rewrite N. unfold managed, managed_l. apply NoDup_nodup_first. }
   rewrite (resolve_one_chain k t C ND). rewrite E. reflexivity.
 Qed.
 
@@ -1319,7 +1341,7 @@ Qed.
 Lemma owner_in_l l a o : owner l a = Some o -> In o (map k_id l).
 Proof.
   induction l as [|k t IH]; [discriminate|].
-  rewrite owner_cons. destruct (declares k a).
+  rewrite owner_cons. destruct (declares_at k t a).
   - intro H. injection H as H. left. exact H.
   - intro H. right. apply IH. exact H.
 Qed.
@@ -1330,7 +1352,7 @@ Lemma owner_cls_suffix l1 l2 a o :
 Proof.
   induction l1 as [|x t IH]; intros C O H; [reflexivity|].
   simpl app in *. rewrite owner_cls_cons. rewrite owner_cons in O.
-  destruct (declares x a).
+  destruct (declares_at x (t ++ l2) a).
   - injection O as O. exfalso. destruct C as [C _]. apply C. rewrite O.
     rewrite map_app. apply in_app_iff. right. exact H.
   - apply IH; [exact (chain_tail _ _ C) | exact O | exact H].
@@ -1351,27 +1373,35 @@ Qed.
 Lemma decl_names_spec c a : In a (decl_names c) -> is_spec c = true.
 Proof. unfold decl_names. destruct (is_spec c); [reflexivity | intros []]. Qed.
 
-Lemma owner_prefix l1 l2 a o :
-  owner (l1 ++ l2) a = Some o -> (exists c, In c l1 /\ declares c a = true) -> In o (map k_id l1).
+(* a name a class lists that its MRO does not manage yet is declared by that class *)
+Lemma new_name_declared x t a :
+  In a (decl_names x) -> ~ In a (managed t) -> declares_at x t a = true.
 Proof.
-  induction l1 as [|x t IH]; intros O [c [Hc D]]; [contradiction|].
-  simpl app in O. rewrite owner_cons in O. destruct (declares x a) eqn:Dx.
-  - injection O as O. left. exact O.
-  - right. apply IH; [exact O|]. destruct Hc as [Hc|Hc]; [subst; congruence|]. exists c. split; assumption.
+  intros H N. pose proof (decl_names_spec x a H) as S.
+  unfold decl_names in H. rewrite S in H. rewrite app_assoc in H. apply in_app_iff in H.
+  destruct H as [H|H].
+  - apply declares_hard; [exact S|]. exact H.
+  - destruct (stated_key x) as [[y|]|] eqn:K; try contradiction. destruct H as [H|[]]. subst y.
+    apply declares_new_key; assumption.
 Qed.
 
 Lemma managed_owned_suffix l1 pc l2 a :
   chain (l1 ++ pc :: l2) -> In a (managed (l1 ++ pc :: l2)) ->
   owner (l1 ++ pc :: l2) a = Some (k_id pc) -> In a (managed (pc :: l2)).
 Proof.
-  intros C Hm O. destruct (managed_decl _ _ Hm) as [c [Hc Ha]].
-  apply in_app_iff in Hc. destruct Hc as [Hc|Hc].
-  - exfalso. assert (Hi : In (k_id pc) (map k_id l1)).
-    { apply (owner_prefix l1 (pc :: l2) a); [exact O|]. exists c. split; [exact Hc|].
-      apply declares_decl; [apply (decl_names_spec c a Ha) | exact Ha]. }
-    apply chain_NoDup in C. rewrite map_app in C. apply NoDup_remove_2 in C.
-    apply C. apply in_app_iff. left. exact Hi.
-  - apply (decl_in_managed (pc :: l2) c a Hc Ha).
+  induction l1 as [|x t IH]; intros C Hm O; [exact Hm|].
+  simpl app in *. rewrite owner_cons in O.
+  destruct (declares_at x (t ++ pc :: l2) a) eqn:DX.
+  - injection O as O. exfalso. destruct C as [C _]. apply C. rewrite O.
+    rewrite map_app. apply in_app_iff. right. left. reflexivity.
+  - apply IH; [exact (chain_tail _ _ C) | | exact O].
+    destruct (is_spec x) eqn:S.
+    + rewrite managed_cons in Hm by exact S. apply in_app_iff in Hm. destruct Hm as [Hm|Hm]; [exact Hm|].
+      apply filter_In in Hm. destruct Hm as [Hd Hn]. apply (proj1 (In_nodup_first _ _)) in Hd.
+      exfalso. assert (NI : ~ In a (managed (t ++ pc :: l2))).
+      { apply memb_false. destruct (memb a (managed (t ++ pc :: l2))); [discriminate | reflexivity]. }
+      rewrite (new_name_declared x _ a Hd NI) in DX. discriminate.
+    + rewrite managed_plain in Hm by exact S. exact Hm.
 Qed.
 
 Lemma managed_suffix l1 l2 a : In a (managed l2) -> In a (managed (l1 ++ l2)).
@@ -1411,7 +1441,7 @@ Section Sim.
   Proof. apply M_inv. Qed.
 
   Lemma M_NoDup : NoDup (map r_name (m_attrs M)).
-  Proof. rewrite M_names. unfold managed. apply NoDup_nodup_first. Qed.
+  Proof. rewrite M_names. unfold managed, managed_l. apply NoDup_nodup_first. Qed.
 
   Lemma M_attr r : In r (m_attrs M) -> attr_ok ks r.
   Proof. apply M_inv. Qed.
@@ -1793,7 +1823,7 @@ Section Sim.
       { etransitivity;
           [apply fold_left_ext with (g := inner_step (k_id pc)); intros [[? ?]|?] ?; reflexivity|].
         apply (inner_fold (k_id pc) kwm (m_attrs pm) [] kwm).
-        + rewrite N2. unfold managed. apply NoDup_nodup_first.
+        + rewrite N2. unfold managed, managed_l. apply NoDup_nodup_first.
         + intros pr Hp. rewrite E. apply managed_suffix. rewrite <- N2. apply in_map. exact Hp.
         + intros; reflexivity. }
       rewrite IF.
@@ -2013,7 +2043,7 @@ Section Sim.
     { etransitivity;
         [apply fold_left_ext with (g := inner_step (k_id pc)); intros [[? ?]|?] ?; reflexivity|].
       apply (inner_fold (k_id pc) kwm (m_attrs pm) [] kwm).
-      + rewrite N2. unfold managed. apply NoDup_nodup_first.
+      + rewrite N2. unfold managed, managed_l. apply NoDup_nodup_first.
       + intros pr Hp. rewrite E. apply managed_suffix. rewrite <- N2. apply in_map. exact Hp.
       + intros; reflexivity. }
     rewrite IF. rewrite K2'.
@@ -2316,7 +2346,7 @@ Definition key_guard (ks : list cdesc) (pos : option aval) (kw : list (aid * ava
     accepted ks k = true
     /\ (pos <> None \/ has k kw = true
         \/ opt_is (nearest_default (owner ks k) k (ms ks))
-           = opt_is (nearest_default (owner ks k) k (up_from (fun c => mentions c k) ks))).
+           = opt_is (nearest_default (owner ks k) k (built_from k ks))).
 
 Lemma meta_anc_head_spec l m t : meta_anc l = m :: t -> is_spec m = true.
 Proof.
@@ -2702,6 +2732,7 @@ Definition wf_cls_b (k : cdesc) (t : list cdesc) : bool :=
       (match d_ovf d with Some (Some o) => negb (memb o (map fst (k_annots k))) | _ => true end)
       && (match d_key d with
           | Some (Some x) => memb x (map fst (k_annots k)) || negb (memb x (managed t))
+                             || negb (has x (k_dict k))
           | _ => true end)
   end.
 
@@ -2717,8 +2748,10 @@ Proof.
     apply andb_prop in H1. destruct H1 as [HO HK]. split.
     + intros o EO. rewrite EO in HO. apply memb_false. destruct (memb o _); [discriminate | reflexivity].
     + intros x EX. rewrite EX in HK. apply orb_prop in HK. destruct HK as [HK|HK].
-      * left. apply memb_In. exact HK.
-      * right. apply memb_false. destruct (memb x (managed t)); [discriminate | reflexivity].
+      * apply orb_prop in HK. destruct HK as [HK|HK].
+        -- left. apply memb_In. exact HK.
+        -- right. left. apply memb_false. destruct (memb x (managed t)); [discriminate | reflexivity].
+      * right. right. unfold has in HK. destruct (assoc x (k_dict k)); [discriminate | reflexivity].
   - split; [|discriminate]. intros _. destruct (k_annots k); [reflexivity | discriminate].
 Qed.
 
@@ -2760,7 +2793,7 @@ Definition key_guard_b (ks : list cdesc) (pos : option aval) (kw : list (aid * a
       accepted ks k
       && (opt_is pos || has k kw
           || Bool.eqb (opt_is (nearest_default (owner ks k) k (ms ks)))
-                      (opt_is (nearest_default (owner ks k) k (up_from (fun c => mentions c k) ks))))
+                      (opt_is (nearest_default (owner ks k) k (built_from k ks))))
   end.
 
 Lemma key_guard_b_sound ks pos kw : key_guard_b ks pos kw = true -> key_guard ks pos kw.
